@@ -44,6 +44,10 @@ THE SOFTWARE.
 #include <amgcl/util.hpp>
 #include <amgcl/relaxation/ilu0.hpp>
 
+#ifdef AMGCL_VERIF
+namespace amgcl_verif { struct access; }
+#endif
+
 namespace amgcl {
 namespace relaxation {
 namespace detail {
@@ -213,6 +217,9 @@ struct ilup {
     }
 
     private:
+#ifdef AMGCL_VERIF
+        friend struct ::amgcl_verif::access;
+#endif
         std::shared_ptr<Base> base;
 };
 
